@@ -26,11 +26,11 @@ var PositionKinds = []PositionKind{
 	{"uint", reflect.TypeOf(uint(0)), true, true}, {"uint8", reflect.TypeOf(uint8(0)), true, true}, {"uint16", reflect.TypeOf(uint16(0)), true, true},
 	{"uint32", reflect.TypeOf(uint32(0)), true, true}, {"uint64", reflect.TypeOf(uint64(0)), true, true},
 	{"bool", reflect.TypeOf(false), true, true},
-	{"float32", reflect.TypeOf(float32(0)), true, false}, {"float64", reflect.TypeOf(float64(0)), true, false},
-	{"string", reflect.TypeOf(""), true, false}, {"number", reflect.TypeOf(stdjson.Number("")), true, false},
-	{"bytes", reflect.TypeOf([]byte(nil)), false, false}, {"slice", reflect.TypeOf([]int(nil)), false, false}, {"map", reflect.TypeOf(map[string]int(nil)), false, false},
-	{"array", reflect.TypeOf([2]int{}), false, false}, {"struct", reflect.TypeOf(zoo.One{}), true, false}, {"iface", TIface, false, false},
-	{"marshalerV", reflect.TypeOf(zoo.MV{}), false, false}, {"textmarshalerV", reflect.TypeOf(zoo.TV{}), false, false}, {"time", reflect.TypeOf(time.Time{}), false, false},
+	{"float32", reflect.TypeOf(float32(0)), true, true}, {"float64", reflect.TypeOf(float64(0)), true, true},
+	{"string", reflect.TypeOf(""), true, true}, {"number", reflect.TypeOf(stdjson.Number("")), true, true},
+	{"bytes", reflect.TypeOf([]byte(nil)), true, false}, {"slice", reflect.TypeOf([]int(nil)), true, false}, {"map", reflect.TypeOf(map[string]int(nil)), true, false},
+	{"array", reflect.TypeOf([2]int{}), true, false}, {"struct", reflect.TypeOf(zoo.One{}), true, false}, {"iface", TIface, false, false},
+	{"marshalerV", reflect.TypeOf(zoo.MV{}), true, false}, {"textmarshalerV", reflect.TypeOf(zoo.TV{}), true, false}, {"time", reflect.TypeOf(time.Time{}), false, false},
 	{"raw", reflect.TypeOf(stdjson.RawMessage(nil)), false, false},
 }
 
